@@ -85,8 +85,14 @@ def run_unit(args):
       out['obligations'].append(discharge(o, tier))
   except (Undecided, Unsupported, SourceError) as e:
     out['undecided'] = '%s: %s' % (type(e).__name__, e)
-  except Exception:
-    out['error'] = traceback.format_exc()
+  except Exception as e:
+    # an exception inside the symbolic executor / libspec while it walks the body: in practice a construct (or an argument form) outside the
+    # modelled subset that no explicit `Unsupported` guards yet.  The unit is UNDECIDED -- never a violation, and no longer a tool error that
+    # would hide the other units' results; the traceback is kept for the report.
+    tb = traceback.extract_tb(e.__traceback__)
+    where = next(('%s:%d' % (os.path.basename(f.filename), f.lineno) for f in reversed(tb) if '/npvc/' in f.filename or '/contracts/' in f.filename), '?')
+    out['undecided'] = 'Undecided: %s: construct outside the modelled subset (internal %s at %s: %s)' % (name, type(e).__name__, where, str(e)[:160])
+    out['internal_traceback'] = traceback.format_exc()[-1500:]
   out['seconds'] = round(time.time() - t0, 3)
   return out
 
